@@ -19,7 +19,7 @@ from analysis import cfg, atoms as A, preach, writes
 from analysis.ir import callee_path, AnchorMissing
 from analysis.prov import prov_of, prov_assuming, strip, leaves, subterms, show
 from analysis.match import is_param, is_field, is_call, const_val, sh, mentions, fail_conditions
-from rules.common import calls_to, ends, arg_name, acc, acc_chain, argname_mismatches, ctx_fail_conditions
+from rules.common import calls_to, ends, arg_name, acc, acc_chain, argname_mismatches, ctx_fail_conditions, as_min
 from rules import swaploop as SL
 from rules import C19
 
@@ -56,11 +56,18 @@ def R1_clamps(run):
                     if o == "Gt" and const_val(y) == LIMIT:
                         guard = (at, x)
         kinds = []
+        totals = []
         ok = guard is not None
         for r in rets:
             s = strip(r)
+            m = as_min(s)
             if const_val(s) == LIMIT:
                 kinds.append("limit")
+            elif m and any(const_val(x) == LIMIT for x in m):
+                # `value.min(FEE_RATE_HARD_LIMIT)`: limit and guarded value in one
+                kinds += ["limit", "guarded"]
+                ok = True if guard is None and all(k in ("limit", "guarded", "static") for k in kinds) else ok
+                totals.append([x for x in m if const_val(x) != LIMIT][0])
             elif name == "get_total_fee_rate" and arg_name(s) == "static_fee_rate" and not mentions(s, lambda t: t[0] == "bin"):
                 kinds.append("static")
             elif guard is not None and strip(guard[1]) == s:
@@ -81,6 +88,10 @@ def R1_clamps(run):
         c = at.cond()
         if c and const_val(c[2]) == LIMIT:
             total = strip(c[1])
+    for r in _returns(fn):
+        m = as_min(r)
+        if m and any(const_val(x) == LIMIT for x in m):
+            total = strip([x for x in m if const_val(x) != LIMIT][0])
     ok = total is not None and total[0] == "bin" and total[1] in ("Add", "AddWithOverflow")
     if ok:
         a, b = strip(total[2]), strip(total[3])
@@ -333,7 +344,8 @@ def R4_gates(run):
     run.touch(fn)
     rets = [dict(l[3])["0"] for l in _returns(fn) if l[0] == "agg" and l[2] == "Ok"]
     cmpv = [strip(r) for r in rets if strip(r)[0] == "bin"]
-    ok = len(cmpv) == 1 and cmpv[0][1] == "Le" and arg_name(cmpv[0][2]) == "trade_enable_timestamp" and is_param(cmpv[0][3], "current_timestamp") and any(const_val(r) == 1 for r in rets)
+    cmpv = [A.norm_cmp(c[1], c[2], c[3]) for c in cmpv]
+    ok = len(cmpv) == 1 and cmpv[0][0] == "Le" and arg_name(cmpv[0][1]) == "trade_enable_timestamp" and is_param(cmpv[0][2], "current_timestamp") and any(const_val(r) == 1 for r in rets)
     run.check("R4", "is_trade_enabled", ok, "is_trade_enabled is not (trade_enable_timestamp <= now), true for pools without an oracle", loc=fn.loc(), detail="ts <= now; no oracle => true")
     ws = writes.writers_of(facts, "state::oracle::Oracle", "trade_enable_timestamp")
     oi = facts.need_fn("state::oracle::Oracle::initialize")
